@@ -201,7 +201,7 @@ def tc_type(e, sc):
                 return "B"
             if a == "K" or b == "K":
                 return "K"
-            return "B"   # the typechecker's `else` branch for Zahl/Byte mixes
+            return "Z"   # Zahl with Byte (either order) is a Zahl (typechecker fixed in 5ca8f5e)
         if op == "Index":
             if b not in ("Z", "B"):
                 return None
@@ -819,6 +819,8 @@ class Gen:
             add(6, lambda d: ["bin", r.choice(["Plus", "Minus", "Mult"]), E("Z", d), E("Z", d)])
             add(2, lambda d: ["bin", "Mod", E("Z", d), I(r.choice([1, 2, 3, 7, -3, 10, 256])) if r.random() < 0.85 else E("Z", d)])
             add(2, lambda d: ["un", r.choice(["Abs", "Neg", "LogicNot"]), E("Z", d)])
+            add(1, lambda d: ["un", r.choice(["Abs", "Neg"]), E("B", d)])
+            add(1, lambda d: self.mixed_zb(sc, d))
             add(2, lambda d: ["bin", r.choice(["LogicAnd", "LogicOr", "LogicXor"]), E("Z", d), E("Z", d)])
             add(2, lambda d: ["bin", r.choice(["Shl", "Shr"]), E("Z", d), I(r.choice([0, 1, 3, 8, 31, 62, 63])) if r.random() < 0.9 else E("Z", d)])
             add(2, lambda d: ["un", "Len", E(r.choice(["T"] + (LISTS if self.lists else [])), d)])
@@ -836,6 +838,7 @@ class Gen:
             add(5, lambda d: ["bin", r.choice(["Plus", "Minus", "Mult"]), E("B", d), E("B", d)])
             add(1, lambda d: ["bin", "Mod", E("B", d), By(r.choice([1, 2, 3, 7, 10, 200])) if r.random() < 0.85 else E("B", d)])
             add(1, lambda d: ["un", "LogicNot", E("B", d)])
+            add(2, lambda d: ["bin", r.choice(["LogicAnd", "LogicOr", "LogicXor"]), E("B", d), E("B", d)])
             add(1, lambda d: ["bin", r.choice(["Shl", "Shr"]), E("B", d), By(r.choice([0, 1, 3, 7]))])
             add(3, lambda d: ["cast", E("Z", d), "B"])
         elif t == "W":
@@ -866,6 +869,16 @@ class Gen:
             add(1, lambda d: ["cast", E(et, d), t])
             add(2, lambda d: ["list", [E(et, d) for _ in range(r.randint(1, 3))]])
         return P
+
+    def mixed_zb(self, sc, d):
+        """Zahl with Byte (either order): the result is a Zahl"""
+        r = self.r
+        p = r.choice([("Z", "B"), ("B", "Z")])
+        op = r.choice(["Plus", "Minus", "Mult", "LogicAnd", "LogicOr", "LogicXor", "Mod"])
+        rhs = self.expr(p[1], sc, d)
+        if op == "Mod":
+            rhs = I(r.choice([1, 3, 7])) if p[1] == "Z" else By(r.choice([1, 3, 7]))
+        return ["bin", op, self.expr(p[0], sc, d), rhs]
 
     def arith_k(self, sc, d):
         r = self.r
